@@ -1,4 +1,77 @@
-// harness ops for tree (filled in when the module is ported)
-pub fn handle(_op: &str, _args: &[&str], _text: &str) -> Option<String> {
-    None
+// harness ops for tree.rs (C10).  No program text; all arguments are u64 decimal.
+//
+//   treelist <states> <colors> <halt 0|1> <steps>   wrappers::tree_progs on the ambient (global)
+//                                                   rayon pool; programs sorted, `;`-joined
+//   treecount <states> <colors> <halt> <steps>      `<n> <number of distinct programs>`
+//   treeseq <states> <colors> <halt> <steps>        tree_progs under a 1-thread rayon pool, in
+//                                                   emission order, `;`-joined
+//   treethreads <threads> <states> <colors> <halt> <steps>   tree_progs under a pool with that
+//                                                   many threads; sorted, `;`-joined
+//   treehash <states> <colors> <halt> <steps>       build_tree with a harvester that keeps
+//                                                   (count, wrapping sum, xor) of the FNV-1a-64
+//                                                   hashes of `show(Some(params))` under a Mutex:
+//                                                   `<n> <sum hex16> <xor hex16>`
+//
+// `tree_progs` is the collecting harvester of wrappers.rs: every program handed to the harvester is
+// pushed (as `show(Some(params))`) under a Mutex, duplicates preserved.
+use crate::instrs::Parse as _;
+use crate::tree::{access, build_tree, get_val, set_val};
+use crate::wrappers;
+
+fn num(s: &str) -> u64 {
+    s.parse::<u64>().unwrap()
+}
+
+fn progs_in_pool(threads: usize, s: &str, c: &str, h: &str, l: &str) -> Vec<String> {
+    let (s, c, h, l) = (num(s), num(c), num(h) != 0, num(l));
+    rayon::ThreadPoolBuilder::new()
+        .num_threads(threads)
+        .build()
+        .unwrap()
+        .install(|| wrappers::tree_progs((s, c), h, l))
+}
+
+fn fnv(s: &str) -> u64 {
+    s.bytes().fold(0xcbf2_9ce4_8422_2325_u64, |h, b| {
+        (h ^ u64::from(b)).wrapping_mul(0x0100_0000_01b3)
+    })
+}
+
+pub fn handle(op: &str, args: &[&str], _text: &str) -> Option<String> {
+    match (op, args) {
+        ("treelist", [s, c, h, l]) => {
+            let mut progs =
+                wrappers::tree_progs((num(s), num(c)), num(h) != 0, num(l));
+            progs.sort();
+            Some(progs.join(";"))
+        },
+        ("treecount", [s, c, h, l]) => {
+            let mut progs =
+                wrappers::tree_progs((num(s), num(c)), num(h) != 0, num(l));
+            progs.sort();
+            let n = progs.len();
+            progs.dedup();
+            Some(format!("{n} {}", progs.len()))
+        },
+        ("treeseq", [s, c, h, l]) => Some(progs_in_pool(1, s, c, h, l).join(";")),
+        ("treethreads", [t, s, c, h, l]) => {
+            let mut progs = progs_in_pool(num(t) as usize, s, c, h, l);
+            progs.sort();
+            Some(progs.join(";"))
+        },
+        ("treehash", [s, c, h, l]) => {
+            let params = (num(s), num(c));
+            let acc = set_val((0_u64, 0_u64, 0_u64));
+            build_tree(params, num(h) != 0, num(l), &|comp| {
+                let x = fnv(&comp.show(Some(params)));
+                let mut a = access(&acc);
+                a.0 += 1;
+                a.1 = a.1.wrapping_add(x);
+                a.2 ^= x;
+            });
+            let (n, sum, xor) = get_val(acc);
+            Some(format!("{n} {sum:016x} {xor:016x}"))
+        },
+        _ => None,
+    }
 }
